@@ -9,7 +9,8 @@ from . import c02
 ID = "C05"
 MODULES = ["Helios.Props.C05", "Helios.Props.C05W"]
 THEOREMS = ["Helios.LB.rr_exact", "Helios.LB.lc_min", "Helios.LB.normWeight_pos",
-            "Helios.WRR.wrr_exact", "Helios.WRR.wrr_period", "Helios.WRR.wrr_window", "Helios.LB.core_refines"]
+            "Helios.WRR.wrr_exact", "Helios.WRR.wrr_period", "Helios.WRR.wrr_window", "Helios.LB.core_refines",
+            "Helios.WRR.wrr_drift", "Helios.LB.core_refines_elig", "Helios.LB.reset_fresh"]
 SEC = lbgen.SEC
 
 
